@@ -1,5 +1,7 @@
 import RTV.Model.Seq
 import RTV.Model.Url
+import RTV.Model.Phone
+import RTV.Gen.PyTables
 import RTV.Gen.Tlds
 import RTV.Model.Preprocess
 import RTV.Model.ChoiceEnv
@@ -51,6 +53,38 @@ def urlModelRun (E : SeqEnv) (q : Str) : List (Str × Nat × Int × Str × Str) 
     match RTV.Url.urlExtract (urlEnvOf E) p with
     | none => []
     | some ers => ers.map fun r => (ofString "url", r.start, (r.start : Int) + r.len - 1, r.text, r.text)
+
+/-- `pattern.search(text)`: span of the first match -/
+def searchSpan (T : Tables) (r : RE) (t : Str) : Option (Nat × Nat) := (findAll T t.toArray r).head?
+
+/-- the regex outcomes `BasePhoneNumberExtractor.extract` consults, from the regenerated patterns (English
+configuration: `EnglishPhoneNumbers.FalsePositivePrefixRegex`, base forbidden prefix markers `, : %`) -/
+def phoneOracleOf (E : SeqEnv) : RTV.Phone.PhoneOracle where
+  isDigit := E.K.isDigit
+  isLower c := inRangesArr RTV.Gen.islowerRanges c
+  isSpace := E.K.isSpace
+  ssn t := searches E.T t.toArray RTV.Gen.phoneSSNFilterRegex
+  fpPrefix := some fun f => searches E.T f.toArray RTV.Gen.enPhoneFalsePositivePrefixRegex
+  fmtInd t := searches E.T t.toArray RTV.Gen.phoneFormatIndicatorRegex
+  intl f := searchSpan E.T RTV.Gen.phoneIntlPrefixRegex f
+  colonOk f := searches E.T f.toArray RTV.Gen.phoneColonPrefixCheckRegex
+  forbiddenPrefix := [44, 58, 37]
+
+/-- the ten `ReVal`s of `BasePhoneNumberExtractor.__init__`, in order -/
+def phoneRegexes : List (RE × String) :=
+  [(RTV.Gen.phoneGeneralRegex, "GeneralPhoneNumber"), (RTV.Gen.phoneBRRegex, "BRPhoneNumber"),
+   (RTV.Gen.phoneUKRegex, "UKPhoneNumber"), (RTV.Gen.phoneDERegex, "DEPhoneNumber"),
+   (RTV.Gen.phoneUSRegex, "USPhoneNumber"), (RTV.Gen.phoneCNRegex, "CNPhoneNumber"),
+   (RTV.Gen.phoneDKRegex, "DKPhoneNumber"), (RTV.Gen.phoneITRegex, "ITPhoneNumber"),
+   (RTV.Gen.phoneNLRegex, "NLPhoneNumber"), (RTV.Gen.phoneSpecialRegex, "SpecialPhoneNumber")]
+
+/-- `BasePhoneNumberExtractor.extract(source)` (English configuration) -/
+def phoneExtract (E : SeqEnv) (source : Str) : List ER :=
+  if !(searches E.T source.toArray RTV.Gen.phonePreCheckRegex) then []
+  else
+    let ms := phoneRegexes.flatMap fun p => tagged p.2 (findAll E.T source.toArray p.1)
+    RTV.Phone.postProcess (phoneOracleOf E) (findAll E.T source.toArray RTV.Gen.phoneMaskRegex) source
+      (seqSweep E.K source ms)
 
 /-- `recognize_ip_address(q, culture)`: `zh` = the Chinese configuration (zh-*, ja-*), else English. No preprocessing
 (`IpAddressModel.parse` passes the query as it is). Fields: type name, text, resolution `value`. -/
